@@ -731,6 +731,9 @@ func (th *Thread) doRecover(caller *frame) Value {
 
 func (in *Interp) wantInit(pkg *ssa.Package) bool {
 	path := pkg.Pkg.Path()
+	if strings.Contains(path, "/opentelemetry") {
+		return false
+	}
 	for _, p := range in.InitPkgPrefixes {
 		if strings.HasPrefix(path, p) {
 			return true
